@@ -815,13 +815,52 @@ func mApply(s *mState, a []string) string {
 		}
 		return "[" + strings.Join(ks, " ") + "]"
 	case "scan":
-		if len(a) != 2 {
+		if len(a) < 2 {
 			return "~any"
+		}
+		// options understood: MATCH pattern (repeatable), ASC, DESC, IDS
+		var pats []string
+		desc, idsOnly := false, false
+		for i := 2; i < len(a); i++ {
+			switch strings.ToLower(a[i]) {
+			case "match":
+				if i+1 >= len(a) {
+					return "~any"
+				}
+				pats = append(pats, a[i+1])
+				i++
+			case "asc":
+			case "desc":
+				desc = true
+			case "ids":
+				idsOnly = true
+			default:
+				return "~any"
+			}
 		}
 		var items []string
 		c := s.Cols[a[1]]
-		for _, id := range sortedKeys(c) {
+		order := sortedKeys(c)
+		if desc {
+			for i, j := 0, len(order)-1; i < j; i, j = i+1, j-1 {
+				order[i], order[j] = order[j], order[i]
+			}
+		}
+		for _, id := range order {
 			o := c[id]
+			if len(pats) > 0 {
+				hit := false
+				for _, p := range pats {
+					hit = hit || mGlob(p, id)
+				}
+				if !hit {
+					continue
+				}
+			}
+			if idsOnly {
+				items = append(items, strconv.Quote(id))
+				continue
+			}
 			it := strconv.Quote(id) + " " + strconv.Quote(o.Val)
 			if len(o.Fields) > 0 {
 				var fv []string
